@@ -10,22 +10,29 @@ PROP = 'C15'
 LEAN_MODULES = ['PMV.Props.C15', 'PMV.Lemmas.C15Calls', 'PMV.Lemmas.Ravel', 'PMV.Lemmas.AxisPerm', 'PMV.Lemmas.AxisOps']
 PARALLEL = True
 MANIFEST = {
-    'text': 'Kernel-checked theorems (PMV/Props/C15.lean, lemmas in PMV/Lemmas/Ravel.lean, AxisPerm.lean, AxisOps.lean) about a code-shaped '
-            'Lean model of polymath/extensions/shaper.py, item_ops.py and Qube.broadcast_to: every leading-axis operation '
-            '(reshape, flatten, swap_axes, roll_axis, move_axis, broadcast_to) is ONE index map applied to values, mask and '
-            'every derivative that leaves item indices alone and equals the NumPy function\'s map for all legal arguments '
-            '(negatives, rank= extension, -1 and () targets; illegal arguments are rejected); item operations act on item '
-            'indices only; axis-argument normalisation is idempotent; the maps are bijections between valid index sets '
-            '(ravel/unravel inverse for every shape, axis permutations for every rank), inverse pairs compose to the '
-            'identity and the number of masked elements is preserved. Tied to /repo on every run by a correspondence check '
-            'with identifier-tagged values, masks and derivatives over all classes, item shapes, leading shapes to rank 4 and '
-            'all legal and illegal arguments; the direct oracle is NumPy applied to the tagged arrays.',
+    'text': 'Kernel-checked theorems about a code-shaped Lean model of polymath/extensions/shaper.py, item_ops.py and '
+            'Qube.broadcast_to (PMV/Props/C15.lean; lemmas in PMV/Lemmas/C15Calls, Ravel, AxisPerm, AxisOps): at the level of '
+            'the WHOLE object, for reshape, flatten, swap_axes, roll_axis, move_axis (any number of axes, rank= extension) and '
+            'broadcast_to, values, mask and EVERY derivative of the result are the input\'s re-indexed by ONE map on the leading '
+            'part (by induction over the derivative list, through the constructor and insert_deriv), class/numerator/'
+            'denominator and the item part of every index untouched; that map is NumPy\'s own (original arguments vs the '
+            'code\'s normalised ones, negatives, -1 targets independent of the item size); axis normalisation is idempotent and '
+            'rejects what NumPy rejects; the maps are bijections between valid index sets (ravel/unravel for every shape, axis '
+            'permutations for every rank), inverse pairs compose to the identity (swap/swap, roll/roll back, move/move back, '
+            'reshape/reshape, flatten/reshape, join_items/split_items, as_row|as_column/flatten_numer), masked counts are '
+            'preserved; item operations (reshape_numer, transposes, extract_numer, stack rows) act on the item part / the new '
+            'axis only. Tied to /repo on every run by a correspondence check with identifier-tagged values, masks and '
+            'derivatives over all classes, item shapes, leading shapes to rank 4, all legal and illegal arguments, operand '
+            'provenance (memory layouts, previous shaping operations) and warm caches; the direct oracle is NumPy applied to '
+            'the tagged arrays.',
     'design': 'DESIGN.md §3 C15; DESIGN.d/C15.md',
-    'technique': 'Lean 4 proof (index maps on functional arrays, induction over shape lists) + model/code correspondence',
+    'technique': 'Lean 4 proof (index maps on functional arrays, induction over shape lists and derivative lists) + '
+                 'model/code correspondence',
     'note': 'Trusted: Lean kernel; hand-written models Model/NpShape.lean (NumPy primitives), Model/Shaper.lean, '
             'Model/ItemOps.lean (checked against the code and against NumPy by the correspondence run); harness abstraction. '
-            'Defects 19, 25, 26 of DESIGN §2.7 and three more found here are repaired on branch wt-C15 '
-            '(see known_findings.d/C15.json); the model describes the repaired code.',
+            'Nine defects repaired (DESIGN 2.7 #19, #25, #26 and six found here; all merged); one recorded '
+            '(KF-C15-conv-leading: as_matrix/as_pair re-read the raw array). from_scalars/slice/as_diagonal/swap_items and the '
+            'as_<class> conversions are tied or swept but have no object-level theorem (DESIGN.d/C15.md §6).',
 }
 RULE = ('operand provenance: fresh C-contiguous arrays, np.asfortranarray copies, transposed views of C bases, '
         'every-second-element views of wider bases (last / first axis), and results of a previous shaping operation '
